@@ -701,6 +701,7 @@ fn c08() -> PropSpec {
     let mut p = Profile::base("long-term");
     p.mech_w = [0, 0, 0, 0, 1];
     p.p_srv_lt = 300;
+    p.p_srv_hostile = 40;
     p.p_srv_integ = 150;
     p.p_srv_code = 120;
     p.p_app_collide = 400;
